@@ -633,6 +633,14 @@ func (ex *Exec) specCall(x ECall, env *SpecEnv) Val {
 			ex.specFail("%v", err)
 		}
 		return Scalar{Eq(IfDyn(ex.scalar(argv(0))), ex.vc.typeID(t)), boolT}
+	case "funcis": // the function value is (statically) the named function
+		need(2)
+		fv, ok := argv(0).(FuncV)
+		name, ok2 := x.Args[1].(EString)
+		if !ok2 {
+			ex.specFail("funcis takes a string literal")
+		}
+		return Scalar{BoolLit(ok && (fv.Fn.String() == name.V || strings.HasSuffix(fv.Fn.String(), "/"+name.V))), boolT}
 	case "implements":
 		need(2)
 		te, err := exprToType(x.Args[1])
